@@ -1,5 +1,5 @@
 SPECIFICATION TSpec
 CONSTANTS
   FixRestrict = TRUE
-  Expiry = FALSE
+  Expiry = TRUE
 CHECK_DEADLOCK FALSE
